@@ -4,9 +4,13 @@
 //!   c01 falsify <seed> <n>           -> completeness falsifier: JSON failure records, then "evaluations=<n> failures=<k>"
 //!   c01 replay '<json case>'         -> runs one case, prints its outcome (exit 0 always)
 //!   c01 probe <seed> <n>             -> (diagnostic) outcome of ill-formed FRI schedules / q >= LDE, never a failure
+//!   c01 xfalsify <seed> <n> [reps]   -> the X stream of the coverage round (wrapper family XAir: Lagrange column, aux assertion kinds, traces using the
+//!                                       exempt rows; direct Trace::validate cross-check with auxiliary segment); run by checks/c01.py with the DEBUG
+//!                                       build (the prover's #[cfg(debug_assertions)] self-checks) and with the release build
 //! Oracle of the falsifier: the family's reference validity predicate `is_valid` (independent of the library): valid
 //! => prove = Ok, verify = Ok, verify(from_bytes(to_bytes(proof))) = Ok, to_bytes(from_bytes(bytes)) = bytes.
-//! Build with --release: debug builds run `Trace::validate` and debug-only degree checks.
+//! `falsify` is built with --release: debug builds run `Trace::validate` and debug-only degree checks, which the degenerate traces trip;
+//! `xfalsify` carries its own reference computation of the actual constraint degrees and therefore also runs in the debug profile.
 //! `corr ... deep`: the algebraic model (deep_poly / v_deep / segment / ood_lhs of coq/Model/Stark.v over Z/p) against the REAL composer code:
 //! prover/src/composer/mod.rs and verifier/src/composer.rs are compiled into this binary straight from /repo (#[path]), so the
 //! comparison follows the working tree on every run without any hook in /repo.
@@ -45,7 +49,19 @@ use winter_verifier::{verify, AcceptableOptions};
 struct Opts { q: usize, blowup: usize, grind: u32, ext: u8, fold: usize, rem: usize }
 
 #[derive(Clone, Debug, PartialEq, Eq)]
-struct Case { field: String, hasher: String, opts: Opts, spec: Spec, lag: usize }  // lag > 0: the Lagrange-kernel family with `lag` auxiliary columns (spec: only log_n is used)
+struct Case { field: String, hasher: String, opts: Opts, spec: Spec, lag: usize,   // lag > 0: the Lagrange-kernel family with `lag` auxiliary columns (spec: only log_n is used)
+              x: Option<X> }   // Some: the X wrapper family of the coverage round (see the section "X family")
+
+/// Knobs of the X wrapper family (coverage round): the airfam member `spec` with, additionally,
+///  lagx: a Lagrange-kernel column appended to the auxiliary segment (needs spec.aux_width >= 1);
+///  rows: 0 = the trace of gen_main as is; 1 = every cell of the main rows n-e+1..n-1 (the rows that only take part in EXEMPT
+///        transitions) that is not under a periodic assertion is overwritten with a random value; 2 = the same for the auxiliary
+///        columns (except asserted cells and the Lagrange column);
+///  aux:  0 = only the family's own auxiliary assertions (single, first step); 1 = a SEQUENCE assertion on auxiliary column 1 at the
+///        steps first + i*stride (first >= 1), values r_1 * (prefix sums of main column 1 % w, published); 2 = one more auxiliary column
+///        holding r_0 + 1 (constraint next = cur) with a PERIODIC assertion at first + i*stride
+#[derive(Clone, Copy, Debug, PartialEq, Eq)]
+struct X { lagx: bool, rows: u8, aux: u8, first: usize, stride: usize }
 
 fn ext_of(e: u8) -> FieldExtension { match e { 1 => FieldExtension::None, 2 => FieldExtension::Quadratic, _ => FieldExtension::Cubic } }
 
@@ -59,8 +75,9 @@ fn case_json(c: &Case) -> String {
         AKind::Periodic { col, first, stride } => format!("[1,{},{},{}]", col, first, stride),
         AKind::Sequence { col, first, stride } => format!("[2,{},{},{}]", col, first, stride),
     }).collect();
-    format!("{{\"lag\":{},\"field\":{},\"hasher\":{},\"opts\":{{\"q\":{},\"blowup\":{},\"grind\":{},\"ext\":{},\"fold\":{},\"rem\":{}}},\"spec\":{{\"width\":{},\"log_n\":{},\"degs\":{},\"periodic\":{},\"use_per\":{},\"hold\":{},\"exemptions\":{},\"assertions\":[{}],\"aux_width\":{},\"aux_rands\":{},\"aux_assert_last\":{},\"seed\":{},\"constant_trace\":{},\"rot\":{}}}}}",
-        c.lag, jstr(&c.field), jstr(&c.hasher), c.opts.q, c.opts.blowup, c.opts.grind, c.opts.ext, c.opts.fold, c.opts.rem,
+    let xs = match &c.x { Some(x) => format!("\"x\":[{},{},{},{},{}],", x.lagx as u8, x.rows, x.aux, x.first, x.stride), None => String::new() };
+    format!("{{{}\"lag\":{},\"field\":{},\"hasher\":{},\"opts\":{{\"q\":{},\"blowup\":{},\"grind\":{},\"ext\":{},\"fold\":{},\"rem\":{}}},\"spec\":{{\"width\":{},\"log_n\":{},\"degs\":{},\"periodic\":{},\"use_per\":{},\"hold\":{},\"exemptions\":{},\"assertions\":[{}],\"aux_width\":{},\"aux_rands\":{},\"aux_assert_last\":{},\"seed\":{},\"constant_trace\":{},\"rot\":{}}}}}",
+        xs, c.lag, jstr(&c.field), jstr(&c.hasher), c.opts.q, c.opts.blowup, c.opts.grind, c.opts.ext, c.opts.fold, c.opts.rem,
         s.width, s.log_n, arr(&s.degs), arr(&s.periodic), barr(&s.use_per), barr(&s.hold), s.exemptions, asr.join(","),
         s.aux_width, s.aux_rands, s.aux_assert_last as u8, s.seed, s.constant_trace as u8, arr(&s.rot))
 }
@@ -97,7 +114,8 @@ fn case_of_json(txt: &str) -> Case {
     let us = |x: &J| x.a().iter().map(|v| v.n() as usize).collect::<Vec<_>>();
     let bs = |x: &J| x.a().iter().map(|v| v.n() != 0).collect::<Vec<_>>();
     let assertions = s.get("assertions").a().iter().map(|a| { let t = us(a); match t[0] { 0 => AKind::Single { col: t[1], step: t[2] }, 1 => AKind::Periodic { col: t[1], first: t[2], stride: t[3] }, _ => AKind::Sequence { col: t[1], first: t[2], stride: t[3] } } }).collect();
-    Case { lag: j.get_opt("lag").map(|x| x.n() as usize).unwrap_or(0), field: j.get("field").s(), hasher: j.get("hasher").s(),
+    let x = j.get_opt("x").map(|v| { let t = us(v); X { lagx: t[0] != 0, rows: t[1] as u8, aux: t[2] as u8, first: t[3], stride: t[4] } });
+    Case { x, lag: j.get_opt("lag").map(|x| x.n() as usize).unwrap_or(0), field: j.get("field").s(), hasher: j.get("hasher").s(),
         opts: Opts { q: o.get("q").n() as usize, blowup: o.get("blowup").n() as usize, grind: o.get("grind").n() as u32, ext: o.get("ext").n() as u8, fold: o.get("fold").n() as usize, rem: o.get("rem").n() as usize },
         spec: Spec { width: s.get("width").n() as usize, log_n: s.get("log_n").n() as u32, degs: us(s.get("degs")).iter().map(|&x| x as u32).collect(), periodic: us(s.get("periodic")),
             use_per: bs(s.get("use_per")), hold: bs(s.get("hold")), exemptions: s.get("exemptions").n() as usize, assertions, aux_width: s.get("aux_width").n() as usize,
@@ -235,6 +253,290 @@ where A: Air, A::PublicInputs: Clone, H: ElementHasher<BaseField = A::BaseField>
     "ok".into()
 }
 
+// ------------------------------------------------------------------------------------------------ X family (coverage round)
+// A wrapper around the shared AIR family (airfam is not modified): the same main / auxiliary transition functions and
+// assertions (delegated to FamAir), plus the knobs of `X`: a Lagrange-kernel column after the family's auxiliary columns,
+// sequence / periodic assertions on auxiliary columns, and traces that USE the rows which only take part in exempt transitions
+// (main and auxiliary).  With it comes a reference computation, independent of the library's debug code, of
+//   * validity of the auxiliary segment (`x_aux_valid`), and
+//   * whether every transition constraint attains exactly its declared degree on the trace at hand (`x_main_exact`, `x_aux_exact`)
+//     and whether the constraint evaluation domain is then the smallest possible one (`x_domain_ok`): exactly what the prover's
+//     debug-only `validate_transition_degrees` asserts.
+#[derive(Clone, Debug, Default)]
+struct XLog { main_exact: bool, domain_ok: bool, used: usize, aux_exact: Option<bool>, aux_valid: Option<bool>, aux_used: usize }
+thread_local! { static XLOG: std::cell::RefCell<XLog> = std::cell::RefCell::new(XLog::default()); }
+fn xlog() -> XLog { XLOG.with(|l| l.borrow().clone()) }
+
+fn x_extra_cols(x: &X) -> usize { (x.aux == 2) as usize + x.lagx as usize }
+fn x_aux_total(spec: &Spec, x: &X) -> usize { if spec.aux_width == 0 { 0 } else { spec.aux_width + x_extra_cols(x) } }
+fn x_steps(x: &X, n: usize) -> Vec<usize> { (0..n / x.stride.max(1)).map(|i| x.first + i * x.stride).collect() }
+fn x_info(spec: &Spec, x: &X) -> TraceInfo {
+    if spec.aux_width > 0 { TraceInfo::new_multi_segment(spec.width, x_aux_total(spec, x), spec.aux_rands, spec.n(), vec![]) } else { TraceInfo::new(spec.width, spec.n()) }
+}
+/// the random element the family uses for auxiliary column i (mirror of airfam: cyclic, ONE when there is none)
+fn x_rand<E: FieldElement>(rands: &[E], i: usize) -> E { if rands.is_empty() { E::ONE } else { rands[i % rands.len()] } }
+/// is the cell (col,row) of the auxiliary segment (without the Lagrange column) under an assertion?
+fn x_aux_asserted(spec: &Spec, x: &X, col: usize, row: usize) -> bool {
+    let n = spec.n();
+    (row == 0 && col < spec.aux_width) || (spec.aux_assert_last && col == 0 && row == n - 1)
+        || (x.aux == 1 && col == 1 && row >= x.first && (row - x.first) % x.stride == 0)
+        || (x.aux == 2 && col == spec.aux_width && row % x.stride == x.first)
+}
+/// prefix sums of main column 1 % w at the steps of the auxiliary sequence assertion (published: the verifier needs them)
+fn x_seq_vals<B: StarkField>(spec: &Spec, x: &X, cols: &[Vec<B>]) -> Vec<B> {
+    if x.aux != 1 { return vec![]; }
+    let c = &cols[1 % spec.width];
+    x_steps(x, spec.n()).iter().map(|&s| c[..s].iter().fold(B::ZERO, |a, &v| a + v)).collect()
+}
+
+#[derive(Clone, Debug)]
+pub struct XPub<B: StarkField> { fam: PubInputs<B>, x: X, seq: Vec<B> }
+impl<B: StarkField> winter_math::ToElements<B> for XPub<B> {
+    fn to_elements(&self) -> Vec<B> {
+        let mut v = winter_math::ToElements::to_elements(&self.fam);
+        v.extend([self.x.lagx as u32, self.x.aux as u32, self.x.first as u32, self.x.stride as u32, self.seq.len() as u32].map(B::from));
+        v.extend(self.seq.iter().copied());
+        v
+    }
+}
+
+pub struct XAir<B: StarkField + ExtensibleField<2> + ExtensibleField<3>> { ctx: AirContext<B>, inner: FamAir<B>, x: X, seq: Vec<B> }
+impl<B: StarkField + ExtensibleField<2> + ExtensibleField<3>> Air for XAir<B> {
+    type BaseField = B;
+    type PublicInputs = XPub<B>;
+    type GkrProof = usize;
+    type GkrVerifier = LagGkrVerifier;
+    fn new(trace_info: TraceInfo, pi: XPub<B>, options: ProofOptions) -> Self {
+        let spec = pi.fam.spec.clone();
+        let x = pi.x;
+        // the wrapped member sees the trace shape it was written for (its own auxiliary columns only)
+        let inner_info = if spec.aux_width > 0 { TraceInfo::new_multi_segment(spec.width, spec.aux_width, spec.aux_rands, spec.n(), vec![]) } else { TraceInfo::new(spec.width, spec.n()) };
+        let inner = FamAir::<B>::new(inner_info, pi.fam.clone(), options.clone());
+        let (main_deg, mut aux_deg) = degrees_of(&spec).expect("degrees");
+        if x.aux == 2 { aux_deg.push(TransitionConstraintDegree::new(1)); }
+        let ctx = if spec.aux_width > 0 {
+            let naa = spec.aux_width + spec.aux_assert_last as usize + (x.aux != 0) as usize;
+            let lag = if x.lagx { Some(x_aux_total(&spec, &x) - 1) } else { None };
+            AirContext::new_multi_segment(trace_info, main_deg, aux_deg, spec.assertions.len(), naa, lag, options)
+        } else { AirContext::new(trace_info, main_deg, spec.assertions.len(), options) };
+        XAir { ctx: ctx.set_num_transition_exemptions(spec.exemptions), inner, x, seq: pi.seq }
+    }
+    fn context(&self) -> &AirContext<B> { &self.ctx }
+    fn evaluate_transition<E: FieldElement<BaseField = B>>(&self, frame: &EvaluationFrame<E>, p: &[E], result: &mut [E]) { self.inner.evaluate_transition(frame, p, result) }
+    fn get_assertions(&self) -> Vec<Assertion<B>> { self.inner.get_assertions() }
+    fn get_periodic_column_values(&self) -> Vec<Vec<B>> { self.inner.get_periodic_column_values() }
+    fn evaluate_aux_transition<F, E>(&self, m: &EvaluationFrame<F>, a: &EvaluationFrame<E>, p: &[F], r: &[E], result: &mut [E])
+    where F: FieldElement<BaseField = B>, E: FieldElement<BaseField = B> + ExtensionOf<F> {
+        self.inner.evaluate_aux_transition(m, a, p, r, result);
+        if self.x.aux == 2 { let h = self.inner.spec.aux_width; result[h] = a.next()[h] - a.current()[h]; }
+    }
+    fn get_aux_assertions<E: FieldElement<BaseField = B>>(&self, r: &[E]) -> Vec<Assertion<E>> {
+        let mut v = self.inner.get_aux_assertions(r);
+        match self.x.aux {
+            1 => v.push(Assertion::sequence(1, self.x.first, self.x.stride, self.seq.iter().map(|&s| x_rand(r, 1).mul_base(s)).collect())),
+            2 => v.push(Assertion::periodic(self.inner.spec.aux_width, self.x.first, self.x.stride, x_rand(r, 0) + E::ONE)),
+            _ => {}
+        }
+        v
+    }
+    fn get_auxiliary_proof_verifier<E: FieldElement<BaseField = B>>(&self) -> LagGkrVerifier { LagGkrVerifier }
+}
+
+pub struct XTrace<B: StarkField> { info: TraceInfo, main: ColMatrix<B>, spec: Spec, x: X }
+impl<B: StarkField> XTrace<B> {
+    fn new(spec: &Spec, x: &X, cols: Vec<Vec<B>>) -> Self { XTrace { info: x_info(spec, x), main: ColMatrix::new(cols), spec: spec.clone(), x: *x } }
+    fn cols(&self) -> Vec<Vec<B>> { (0..self.spec.width).map(|c| self.main.get_column(c).to_vec()).collect() }
+}
+impl<B: StarkField> Trace for XTrace<B> {
+    type BaseField = B;
+    fn info(&self) -> &TraceInfo { &self.info }
+    fn main_segment(&self) -> &ColMatrix<B> { &self.main }
+    fn read_main_frame(&self, row_idx: usize, frame: &mut EvaluationFrame<B>) {
+        let next = (row_idx + 1) % self.main.num_rows();
+        self.main.read_row_into(row_idx, frame.current_mut());
+        self.main.read_row_into(next, frame.next_mut());
+    }
+}
+
+/// the Lagrange kernel column for the given random elements (as in winterfell/src/tests.rs)
+fn lagrange_col<E: FieldElement>(r: &[E], n: usize) -> Vec<E> {
+    (0..n).map(|row| r.iter().enumerate().fold(E::ONE, |acc, (bit, &ri)| if row & (1 << bit) == 0 { acc * (E::ONE - ri) } else { acc * ri })).collect()
+}
+
+/// the auxiliary segment of the X family: the family's honest columns (gen_aux), the optional periodic-assertion column, the
+/// optional use of the exempt rows, the optional Lagrange column
+fn x_build_aux<B: StarkField, E: FieldElement<BaseField = B>>(spec: &Spec, x: &X, main: &ColMatrix<B>, rands: &[E], lag: Option<&[E]>) -> Vec<Vec<E>> {
+    let (n, e) = (spec.n(), spec.exemptions);
+    let mut cols = gen_aux::<B, E>(spec, main, rands);
+    if x.aux == 2 { cols.push(vec![x_rand(rands, 0) + E::ONE; n]); }
+    if x.rows >= 2 && e >= 2 {
+        let mut r = Rng::new(spec.seed ^ 0xA0A0_5EED);
+        for row in n - e + 1..n { for c in 0..cols.len() {
+            if !x_aux_asserted(spec, x, c, row) { cols[c][row] = x_rand(rands, c).mul_base(B::from(r.next_u64() as u32)) + E::from(B::from(r.next_u64() as u32)); }
+        } }
+    }
+    if let Some(l) = lag { cols.push(lagrange_col(l, n)); }
+    cols
+}
+
+/// sum_i col[i] * g^i: n times the coefficient of x^(n-1) of the polynomial interpolating `col` over the trace domain <g>
+/// (inverse DFT written out; g^(-(n-1)) = g)
+fn top_coeff<B: StarkField, E: FieldElement<BaseField = B>>(col: &[E], g: B) -> E {
+    let (mut acc, mut p) = (E::ZERO, B::ONE);
+    for &v in col { acc += v.mul_base(p); p *= g; }
+    acc
+}
+
+/// Reference: does every MAIN transition constraint attain exactly its declared degree on this trace?  Returns also the number of
+/// exempt steps n-e..n-2 at which the transition relation is violated.  The family's small constants k_c are re-derived here (they
+/// are private to airfam); `consistent` = the re-derived relation vanishes on all non-exempt steps (it must: the trace passed is_valid).
+fn x_main_exact<B: StarkField>(spec: &Spec, cols: &[Vec<B>]) -> (bool, usize, bool) {
+    let (n, e, w) = (spec.n(), spec.exemptions, spec.width);
+    let g = B::get_root_of_unity(spec.log_n);
+    let pers = spec.periodic_values::<B>();
+    let ks: Vec<B> = { let mut r = Rng::new(spec.seed ^ 0xABCD); (0..w).map(|_| B::from((r.below(5) + 1) as u32)).collect() };
+    // values of every constraint polynomial on the trace domain
+    let mut cv = vec![vec![B::ZERO; n]; w];
+    for i in 0..n {
+        let cur: Vec<B> = (0..w).map(|c| cols[c][i]).collect();
+        let nxt = step_main(spec, &cur, i, &pers, &ks);
+        for c in 0..w { cv[c][i] = cols[c][(i + 1) % n] - nxt[c]; }
+    }
+    let consistent = (0..n - e).all(|i| (0..w).all(|c| cv[c][i] == B::ZERO));
+    let used = (n - e..n - 1).filter(|&i| (0..w).any(|c| cv[c][i] != B::ZERO)).count();
+    let mut exact = true;
+    for c in 0..w {
+        let linear = spec.hold[c] || spec.rot_of(c) > 0 || (spec.degs[c] == 1 && spec.per_index(c).is_none());
+        if linear {
+            // the constraint polynomial has degree <= n-1, so it IS the interpolant of its values on the trace domain; declared degree 1:
+            // expected quotient degree (n-1) - (n-e) = e-1; for e = 1 a constant (degree_of(0) = 0 too)
+            if e >= 2 && top_coeff::<B, B>(&cv[c], g) == B::ZERO { exact = false; }
+        } else {
+            // leading term T_c(x)^d * (1 + P(x^(n/cyc))): degree d(n-1) + (n/cyc)(cyc-1) iff both leading coefficients are non-zero
+            if top_coeff::<B, B>(&cols[c], g) == B::ZERO { exact = false; }
+            if let Some(i) = spec.per_index(c) { let cyc = pers[i].len(); let h = g.exp(((n / cyc) as u64).into()); if top_coeff::<B, B>(&pers[i], h) == B::ZERO { exact = false; } }
+        }
+    }
+    (exact, used, consistent)
+}
+
+/// Reference: validity of the auxiliary segment (transition relation on the non-exempt steps, all auxiliary assertions) and degree
+/// exactness of the auxiliary constraints; `aux` without the Lagrange column.
+fn x_aux_check<B: StarkField, E: FieldElement<BaseField = B>>(spec: &Spec, x: &X, main: &[Vec<B>], aux: &[Vec<E>], rands: &[E], seq: &[B]) -> (bool, bool, usize) {
+    let (n, e, w, aw) = (spec.n(), spec.exemptions, spec.width, spec.aux_width);
+    let g = B::get_root_of_unity(spec.log_n);
+    let mut cv = vec![vec![E::ZERO; n]; aux.len()];
+    for i in 0..n {
+        let nx = (i + 1) % n;
+        cv[0][i] = aux[0][nx] - aux[0][i] * (E::from(main[0][i]) + x_rand(rands, 0));
+        for j in 1..aw { cv[j][i] = aux[j][nx] - (aux[j][i] + x_rand(rands, j).mul_base(main[j % w][i])); }
+        if x.aux == 2 { cv[aw][i] = aux[aw][nx] - aux[aw][i]; }
+    }
+    let mut valid = (0..n - e).all(|i| cv.iter().all(|c| c[i] == E::ZERO));
+    valid &= aux[0][0] == E::ONE && (1..aw).all(|j| aux[j][0] == E::ZERO);
+    if spec.aux_assert_last { valid &= aux[0][n - 1] == aux_last_value(rands); }
+    if x.aux == 1 { valid &= x_steps(x, n).iter().zip(seq).all(|(&s, &v)| aux[1][s] == x_rand(rands, 1).mul_base(v)); }
+    if x.aux == 2 { valid &= x_steps(x, n).iter().all(|&s| aux[aw][s] == x_rand(rands, 0) + E::ONE); }
+    let used = (n - e..n - 1).filter(|&i| cv.iter().any(|c| c[i] != E::ZERO)).count();
+    // column 0: next = cur * (main_0 + r_0), declared degree 2: exact iff both factors have full degree n-1
+    let mut exact = top_coeff::<B, E>(&aux[0], g) != E::ZERO && top_coeff::<B, B>(&main[0], g) != B::ZERO;
+    // the linear ones: as for the main segment
+    if e >= 2 { for j in 1..aux.len() { if top_coeff::<B, E>(&cv[j], g) == E::ZERO { exact = false; } } }
+    (valid, exact, used)
+}
+
+/// Reference: declared degrees -> (expected quotient degrees, smallest sufficient evaluation domain = the one the context uses?)
+fn x_domain_ok(spec: &Spec, x: &X) -> bool {
+    let (n, e) = (spec.n(), spec.exemptions);
+    let mut degs: Vec<(usize, Vec<usize>)> = (0..spec.width).map(|c| if spec.hold[c] || spec.rot_of(c) > 0 { (1, vec![]) } else { match spec.per_index(c) {
+        Some(i) => (spec.degs[c] as usize, vec![spec.periodic[i]]), None => (spec.degs[c] as usize, vec![]) } }).collect();
+    for j in 0..spec.aux_width { degs.push((if j == 0 { 2 } else { 1 }, vec![])); }
+    if x.aux == 2 && spec.aux_width > 0 { degs.push((1, vec![])); }
+    let ce = degs.iter().map(|(b, cyc)| (b + cyc.len() - 1).next_power_of_two().max(2)).max().unwrap();
+    let maxdeg = degs.iter().map(|(b, cyc)| (b * (n - 1) + cyc.iter().map(|c| (n / c) * (c - 1)).sum::<usize>()).saturating_sub(n - e)).max().unwrap();
+    maxdeg.max(n + 1).next_power_of_two() == n * ce
+}
+
+/// overwrite the main cells that only take part in exempt transitions (rows n-e+1..n-1) and are not under a periodic assertion
+fn x_use_exempt_rows<B: StarkField>(spec: &Spec, cols: &mut [Vec<B>]) {
+    let (n, e) = (spec.n(), spec.exemptions);
+    let mut r = Rng::new(spec.seed ^ 0xE0E0_5EED);
+    for row in n - e + 1..n { for c in 0..spec.width {
+        let pinned = spec.assertions.iter().any(|a| matches!(a, AKind::Periodic { col, first, stride } if *col == c && row % stride == *first));
+        if !pinned { cols[c][row] = B::from(r.next_u64() as u32) + B::from((r.next_u64() >> 33) as u32); }
+    } }
+}
+
+pub struct XProver<B: StarkField, H> { options: ProofOptions, _p: std::marker::PhantomData<(B, H)> }
+impl<B, H> Prover for XProver<B, H>
+where B: StarkField + ExtensibleField<2> + ExtensibleField<3> + 'static, H: ElementHasher<BaseField = B> + Send + Sync {
+    type BaseField = B;
+    type Air = XAir<B>;
+    type Trace = XTrace<B>;
+    type HashFn = H;
+    type RandomCoin = DefaultRandomCoin<H>;
+    type TraceLde<E: FieldElement<BaseField = B>> = DefaultTraceLde<E, H>;
+    type ConstraintEvaluator<'a, E: FieldElement<BaseField = B>> = DefaultConstraintEvaluator<'a, XAir<B>, E>;
+    fn get_pub_inputs(&self, t: &XTrace<B>) -> XPub<B> {
+        let cols = t.cols();
+        XPub { fam: PubInputs { spec: t.spec.clone(), avals: assertion_values(&t.spec, &cols) }, x: t.x, seq: x_seq_vals(&t.spec, &t.x, &cols) }
+    }
+    fn options(&self) -> &ProofOptions { &self.options }
+    fn new_trace_lde<E: FieldElement<BaseField = B>>(&self, trace_info: &TraceInfo, main_trace: &ColMatrix<B>, domain: &StarkDomain<B>) -> (Self::TraceLde<E>, TracePolyTable<E>) { DefaultTraceLde::new(trace_info, main_trace, domain) }
+    fn new_evaluator<'a, E: FieldElement<BaseField = B>>(&self, air: &'a XAir<B>, aux: Option<AuxRandElements<E>>, cc: ConstraintCompositionCoefficients<E>) -> Self::ConstraintEvaluator<'a, E> { DefaultConstraintEvaluator::new(air, aux, cc) }
+    fn generate_gkr_proof<E: FieldElement<BaseField = B>>(&self, t: &XTrace<B>, public_coin: &mut Self::RandomCoin) -> (ProverGkrProof<Self>, LagrangeKernelRandElements<E>) {
+        let k = t.main.num_rows().ilog2() as usize;
+        let v: Vec<E> = (0..k).map(|_| public_coin.draw().unwrap()).collect();
+        (k, LagrangeKernelRandElements::new(v))
+    }
+    fn build_aux_trace<E: FieldElement<BaseField = B>>(&self, t: &XTrace<B>, aux: &AuxRandElements<E>) -> ColMatrix<E> {
+        let lag: Option<Vec<E>> = if t.x.lagx { Some(aux.lagrange().expect("lagrange random elements").iter().copied().collect()) } else { None };
+        let mut cols = x_build_aux::<B, E>(&t.spec, &t.x, t.main_segment(), aux.rand_elements(), lag.as_deref());
+        let main = t.cols();
+        let lagc = if t.x.lagx { cols.pop() } else { None };
+        let (valid, exact, used) = x_aux_check::<B, E>(&t.spec, &t.x, &main, &cols, aux.rand_elements(), &x_seq_vals(&t.spec, &t.x, &main));
+        XLOG.with(|l| { let mut l = l.borrow_mut(); l.aux_valid = Some(valid); l.aux_exact = Some(exact); l.aux_used = used; });
+        if let Some(c) = lagc { cols.push(c); }
+        ColMatrix::new(cols)
+    }
+}
+
+/// well-formedness of an X case as a member of the wrapper family (independent of the library)
+fn x_wellformed(s: &Spec, x: &X) -> bool {
+    let n = s.n();
+    let mut t = s.clone(); t.aux_assert_last = false;
+    spec_wellformed(&t) && (!s.aux_assert_last || (s.aux_width > 0 && s.exemptions >= 2)) && x.rows <= 2 && x.aux <= 2
+        && (!x.lagx || s.aux_width >= 1) && s.aux_rands <= 255 && (s.aux_width == 0 || s.aux_rands >= 1)
+        && match x.aux { 0 => true, 1 => s.aux_width >= 2 && x.stride >= 2 && x.stride.is_power_of_two() && x.stride <= n && x.first >= 1 && x.first < x.stride,
+                         _ => s.aux_width >= 1 && x.stride >= 2 && x.stride.is_power_of_two() && x.stride <= n && x.first < x.stride }
+        && s.width + x_aux_total(s, x) <= 255
+}
+
+fn run_x<B, H>(spec: &Spec, x: &X, opts: &ProofOptions) -> String
+where B: StarkField + ExtensibleField<2> + ExtensibleField<3> + 'static, H: ElementHasher<BaseField = B> + Send + Sync {
+    let mut cols = gen_main::<B>(spec);
+    if x.rows >= 1 && spec.exemptions >= 2 { x_use_exempt_rows(spec, &mut cols); }
+    let avals = assertion_values(spec, &cols);
+    if !is_valid(spec, &cols, &avals) { return "invalid-trace".into(); }
+    let (main_exact, used, consistent) = x_main_exact(spec, &cols);
+    if !consistent { return "invalid-trace:re-derived constants disagree with airfam".into(); }
+    XLOG.with(|l| *l.borrow_mut() = XLog { main_exact, domain_ok: x_domain_ok(spec, x), used, aux_exact: None, aux_valid: None, aux_used: 0 });
+    let trace = XTrace::new(spec, x, cols);
+    let prover = XProver::<B, H> { options: opts.clone(), _p: std::marker::PhantomData };
+    let pi = prover.get_pub_inputs(&trace);
+    let res = catch(AssertUnwindSafe(|| prover.prove(trace)));
+    if xlog().aux_valid == Some(false) { return "invalid-trace:aux".into(); }
+    finish_run::<XAir<B>, H, _>(res, pi, opts)
+}
+
+/// the library's debug-only degree diagnostics (prover/src/constraints/evaluation_table.rs validate_transition_degrees)
+fn is_degree_diagnostic(out: &str) -> bool {
+    // assert_eq! prefixes the message with "assertion `left == right` failed: "
+    out.starts_with("prove-panic:") && (out[..out.len().min(110)].contains("transition constraint degrees didn't match") || out[..out.len().min(110)].contains("incorrect constraint evaluation domain size"))
+}
+/// does the reference predict that the debug-only degree validation is satisfied by the last X run?
+fn x_predicted_exact() -> bool { let l = xlog(); l.main_exact && l.domain_ok && l.aux_exact.unwrap_or(true) }
+
 const FIELDS: [&str; 3] = ["f62", "f64", "f128"];
 fn hashers_of(field: &str) -> &'static [&'static str] {
     match field { "f62" => &["blake3_256", "blake3_192", "sha3_256", "rp62_248", "toy"], "f64" => &["blake3_256", "blake3_192", "sha3_256", "rp64_256", "rpjive64_256", "toy"], _ => &["blake3_256", "blake3_192", "sha3_256", "toy"] }
@@ -246,7 +548,7 @@ fn make_opts(o: &Opts) -> Option<ProofOptions> { catch(|| ProofOptions::new(o.q,
 fn run_case(c: &Case) -> String {
     let opts = match make_opts(&c.opts) { Some(o) => o, None => return "options-rejected".into() };
     type B62 = f62::BaseElement; type B64 = f64::BaseElement; type B128 = f128::BaseElement;
-    macro_rules! go { ($b:ty, $h:ty) => { if c.lag > 0 { run_lag::<$b, $h>(c.spec.log_n, c.lag, &opts) } else { run_one::<$b, $h>(&c.spec, &opts) } } }
+    macro_rules! go { ($b:ty, $h:ty) => { if let Some(x) = &c.x { run_x::<$b, $h>(&c.spec, x, &opts) } else if c.lag > 0 { run_lag::<$b, $h>(c.spec.log_n, c.lag, &opts) } else { run_one::<$b, $h>(&c.spec, &opts) } } }
     match (c.field.as_str(), c.hasher.as_str()) {
         ("f62", "blake3_256") => go!(B62, Blake3_256<B62>),
         ("f62", "blake3_192") => go!(B62, Blake3_192<B62>),
@@ -328,6 +630,16 @@ fn ref_ctx_accepts(s: &Spec, blowup: usize) -> bool {
 /// admissible in the sense of the property: constructors accept, FRI schedule well-formed, fewer queries than LDE points,
 /// extension supported by the field
 fn admissible(c: &Case) -> bool {
+    if let Some(x) = &c.x {
+        if c.lag != 0 || c.spec.log_n < 3 || c.spec.log_n > 20 || !x_wellformed(&c.spec, x) { return false; }
+        let opts = match make_opts(&c.opts) { Some(o) => o, None => return false };
+        let lde = c.spec.n() * c.opts.blowup;
+        if !fri_wellformed(lde, c.opts.blowup, c.opts.fold, c.opts.rem) || c.opts.q >= lde { return false; }
+        if !ext_supported(&c.field, c.opts.ext) || !hashers_of(&c.field).contains(&c.hasher.as_str()) { return false; }
+        // the REAL constructors decide (TraceInfo, AirContext with the Lagrange index, set_num_transition_exemptions)
+        let (spec, x) = (c.spec.clone(), *x);
+        return catch(AssertUnwindSafe(move || { let _ = XAir::<f64::BaseElement>::new(x_info(&spec, &x), XPub { fam: PubInputs { spec: spec.clone(), avals: vec![] }, x, seq: vec![] }, opts); })).is_ok();
+    }
     if c.lag > 0 {
         let lde = c.spec.n() * c.opts.blowup;
         return c.lag >= 2 && c.lag <= 254 && c.spec.log_n >= 3 && c.spec.log_n <= 16 && make_opts(&c.opts).is_some() && fri_wellformed(lde, c.opts.blowup, c.opts.fold, c.opts.rem)
@@ -371,11 +683,18 @@ fn shrinks(c: &Case) -> Vec<Case> {
         for col in [s.width - 1, 0] { if let Some(t) = drop_col(s, col) { v.push(Case { spec: t, ..c.clone() }); } }
     }
     if s.log_n > 3 { v.push(with(&|d| { d.spec.log_n -= 1; let n = d.spec.n(); d.spec.exemptions = d.spec.exemptions.min(n / 2 + 1);
+        if let Some(x) = d.x.as_mut() { x.stride = x.stride.min(n); x.first %= x.stride.max(1); if x.aux == 1 && x.first == 0 { x.first = 1; } }
         for p in d.spec.periodic.iter_mut() { *p = (*p).min(n); }
         d.spec.assertions = d.spec.assertions.iter().map(|a| match a { AKind::Single { col, step } => AKind::Single { col: *col, step: step % n },
             AKind::Periodic { col, first, stride } => { let st = (*stride).min(n); AKind::Periodic { col: *col, first: first % st, stride: st } },
             AKind::Sequence { col, first, stride } => { let st = (*stride).min(n); AKind::Sequence { col: *col, first: first % st, stride: st } } }).collect(); })); }
-    if s.aux_width > 0 { v.push(with(&|d| { d.spec.aux_width = 0; d.spec.aux_rands = 0; d.spec.aux_assert_last = false; }));
+    if let Some(x) = c.x {
+        if x.rows > 0 { v.push(with(&|d| d.x.as_mut().unwrap().rows = 0)); v.push(with(&|d| d.x.as_mut().unwrap().rows -= 1)); }
+        if x.aux > 0 { v.push(with(&|d| d.x.as_mut().unwrap().aux = 0)); }
+        if x.lagx { v.push(with(&|d| d.x.as_mut().unwrap().lagx = false)); }
+        if s.aux_assert_last { v.push(with(&|d| d.spec.aux_assert_last = false)); }
+    }
+    if s.aux_width > 0 { v.push(with(&|d| { d.spec.aux_width = 0; d.spec.aux_rands = 0; d.spec.aux_assert_last = false; if let Some(x) = d.x.as_mut() { x.lagx = false; x.aux = 0; } }));
         if s.aux_width > 1 { v.push(with(&|d| d.spec.aux_width = 1)); } if s.aux_rands > 1 { v.push(with(&|d| d.spec.aux_rands = 1)); } }
     if !s.periodic.is_empty() { v.push(with(&|d| { d.spec.periodic.clear(); for u in d.spec.use_per.iter_mut() { *u = false; } })); }
     if s.degs.iter().any(|&d| d > 1) { v.push(with(&|d| for x in d.spec.degs.iter_mut() { *x = 1; })); v.push(with(&|d| for x in d.spec.degs.iter_mut() { if *x > 1 { *x -= 1; } })); }
@@ -418,12 +737,12 @@ fn shrink(c: &Case, out: &str, budget: &mut usize) -> (Case, String) {
 }
 
 // ------------------------------------------------------------------------------------------------ generators
-struct Tally { evals: usize, fails: usize, skipped: usize, classes: Vec<String>, strata: std::collections::BTreeMap<String, usize> }
+struct Tally { last_cell: bool, evals: usize, fails: usize, skipped: usize, classes: Vec<String>, strata: std::collections::BTreeMap<String, usize> }
 
 fn check(c: &Case, t: &mut Tally, stratum: &str) {
     if !admissible(c) {
         // the library's constructors and the reference rules must agree on what is admissible
-        if c.lag == 0 && spec_wellformed(&c.spec) && c.spec.log_n >= 3 && c.spec.log_n <= 20 {
+        if c.lag == 0 && c.x.is_none() && spec_wellformed(&c.spec) && c.spec.log_n >= 3 && c.spec.log_n <= 20 {
             if let Some(o) = make_opts(&c.opts) {
                 let (lib, reference) = (ctx_accepts::<f64::BaseElement>(&c.spec, &o).is_some(), ref_ctx_accepts(&c.spec, c.opts.blowup));
                 if lib != reference {
@@ -440,7 +759,30 @@ fn check(c: &Case, t: &mut Tally, stratum: &str) {
     }
     let out = run_case(c);
     t.evals += 1;
+    t.last_cell = false;
     *t.strata.entry(stratum.to_string()).or_insert(0) += 1;
+    if let Some(x) = &c.x {
+        // debug profile: the prover's debug-only degree validation compares declared and actual constraint degrees; a trace on which the
+        // REFERENCE computation says they differ (degenerate columns) may trip it (see notes/C01.design.md, "Coverage round"); every other
+        // outcome than ok / that diagnostic is a failure, and a trace the reference calls degree-exact must be proved
+        let (l, exact) = (xlog(), x_predicted_exact());
+        if cfg!(debug_assertions) && !exact && is_degree_diagnostic(&out) {
+            *t.strata.entry(format!("debug-degree-diagnostic:{}", if !l.domain_ok { "domain-size" } else if !l.main_exact { "main" } else { "aux" })).or_insert(0) += 1;
+            if std::env::var("C01_SHOW_DIAGNOSTICS").is_ok() { eprintln!("diagnostic {} {:?} {} {}", stratum, l, out, case_json(c)); }
+            return;
+        }
+        if out == "ok" {
+            if cfg!(debug_assertions) && !exact { *t.strata.entry("debug-degree-diagnostic:predicted-but-silent".to_string()).or_insert(0) += 1; return; }
+            let (s, e) = (&c.spec, c.spec.exemptions);
+            let tot = x_aux_total(s, x);
+            let shape = if tot == 0 { "none" } else if tot < s.width { "lt" } else if tot == s.width { "eq" } else { "gt" };
+            let aux_all = tot == 0 || l.aux_used == e - 1;
+            let ex = if e == 1 { "e1".to_string() } else { format!("e{}{}:{}", e.min(4), if e > 4 { "+" } else { "" },
+                if l.used == e - 1 && aux_all { "used" } else if l.used == e - 1 { "used-main-only" } else if l.used == 0 && l.aux_used == 0 { "unused" } else { "partly-used" }) };
+            *t.strata.entry(format!("cell:aux-{}:lag{}:{}", shape, x.lagx as u8, ex)).or_insert(0) += 1;
+            t.last_cell = true;
+        }
+    }
     if out == "ok" { return; }
     if out == "invalid-trace" { // generator defect, not a property failure: report loudly as a harness failure
         t.fails += 1;
@@ -510,7 +852,7 @@ fn boundary_stream(r: &mut Rng, t: &mut Tally, thorough: bool) {
                 let s = mk();
                 let lde = s.n() * blowup;
                 let (fold, rem) = pick_fri(r, lde, blowup);
-                let c = Case { lag: 0, field: f.into(), hasher: hashers_of(f)[r.below(3) as usize].into(), opts: Opts { q: 2, blowup, grind: 0, ext, fold, rem }, spec: s };
+                let c = Case { x: None, lag: 0, field: f.into(), hasher: hashers_of(f)[r.below(3) as usize].into(), opts: Opts { q: 2, blowup, grind: 0, ext, fold, rem }, spec: s };
                 check(&c, t, name);
             }
         }
@@ -526,7 +868,7 @@ fn boundary_stream(r: &mut Rng, t: &mut Tally, thorough: bool) {
             let blowup = *r.pick(&[4usize, 8]);
             fit_degrees(&mut s, blowup);
             let (fold, rem) = pick_fri(r, s.n() * blowup, blowup);
-            check(&Case { lag: 0, field: f, hasher: h, opts: Opts { q: 1 + r.below(6) as usize, blowup, grind: 0, ext, fold, rem }, spec: s }, t, &format!("width:{}+{}", w, aw));
+            check(&Case { x: None, lag: 0, field: f, hasher: h, opts: Opts { q: 1 + r.below(6) as usize, blowup, grind: 0, ext, fold, rem }, spec: s }, t, &format!("width:{}+{}", w, aw));
         }
     }
     // ---- degree boundaries: every degree 1..=blowup+1 for blowup 2,4,8(,16), with and without a periodic column, x exemptions 1,2,d,blowup,n/2+1
@@ -547,7 +889,7 @@ fn boundary_stream(r: &mut Rng, t: &mut Tally, thorough: bool) {
                         let ext = 1 + r.below(3) as u8;
                         let (f, h) = pick_fh(r, ext);
                         let (fold, rem) = pick_fri(r, n * blowup, blowup);
-                        check(&Case { lag: 0, field: f, hasher: h, opts: Opts { q: 1 + r.below(4) as usize, blowup, grind: 0, ext, fold, rem }, spec: s }, t,
+                        check(&Case { x: None, lag: 0, field: f, hasher: h, opts: Opts { q: 1 + r.below(4) as usize, blowup, grind: 0, ext, fold, rem }, spec: s }, t,
                             &format!("degree:{}{}", if d as usize == blowup + 1 { "blowup+1" } else if d == 1 { "1" } else { "mid" }, if per { "+periodic" } else { "" }));
                     }
                 }
@@ -581,7 +923,7 @@ fn boundary_stream(r: &mut Rng, t: &mut Tally, thorough: bool) {
             let (f, h) = pick_fh(r, ext);
             let blowup = *r.pick(&[2usize, 4, 8]);
             let (fold, rem) = pick_fri(r, n * blowup, blowup);
-            check(&Case { lag: 0, field: f, hasher: h, opts: Opts { q: 1 + r.below(5) as usize, blowup, grind: 0, ext, fold, rem }, spec: s }, t, &format!("assertion:{}", name));
+            check(&Case { x: None, lag: 0, field: f, hasher: h, opts: Opts { q: 1 + r.below(5) as usize, blowup, grind: 0, ext, fold, rem }, spec: s }, t, &format!("assertion:{}", name));
         }
     }
     // ---- query-count boundaries: 1, 2, LDE-1, 254, 255 (needs LDE >= 256)
@@ -592,15 +934,15 @@ fn boundary_stream(r: &mut Rng, t: &mut Tally, thorough: bool) {
             let s = Spec::simple(1 + r.below(3) as usize, log_n, 2, r.next_u64());
             let (f, h) = pick_fh(r, ext);
             let (fold, rem) = pick_fri(r, s.n() * blowup, blowup);
-            check(&Case { lag: 0, field: f, hasher: h, opts: Opts { q, blowup, grind: 0, ext, fold, rem }, spec: s }, t, &format!("queries:{}", if q == 255 { "255".to_string() } else if q + 1 == (1 << log_n) * blowup { "lde-1".into() } else { "other".into() }));
+            check(&Case { x: None, lag: 0, field: f, hasher: h, opts: Opts { q, blowup, grind: 0, ext, fold, rem }, spec: s }, t, &format!("queries:{}", if q == 255 { "255".to_string() } else if q + 1 == (1 << log_n) * blowup { "lde-1".into() } else { "other".into() }));
         }
     }
     // 255 columns AND 255 queries together
     {
         let s = Spec::simple(255, 3, 1, r.next_u64());
-        check(&Case { lag: 0, field: "f64".into(), hasher: "blake3_256".into(), opts: Opts { q: 255, blowup: 32, grind: 0, ext: 1, fold: 4, rem: 7 }, spec: s }, t, "width:255+queries:255");
+        check(&Case { x: None, lag: 0, field: "f64".into(), hasher: "blake3_256".into(), opts: Opts { q: 255, blowup: 32, grind: 0, ext: 1, fold: 4, rem: 7 }, spec: s }, t, "width:255+queries:255");
         let mut s = Spec::simple(200, 3, 1, r.next_u64()); s.aux_width = 55; s.aux_rands = 3;
-        check(&Case { lag: 0, field: "f62".into(), hasher: "rp62_248".into(), opts: Opts { q: 255, blowup: 32, grind: 0, ext: 2, fold: 8, rem: 15 }, spec: s }, t, "width:255+queries:255");
+        check(&Case { x: None, lag: 0, field: "f62".into(), hasher: "rp62_248".into(), opts: Opts { q: 255, blowup: 32, grind: 0, ext: 2, fold: 8, rem: 15 }, spec: s }, t, "width:255+queries:255");
     }
     // ---- FRI schedules: every (blowup, fold, rem) that is well formed for a few LDE sizes
     let mut sched = vec![];
@@ -619,14 +961,14 @@ fn boundary_stream(r: &mut Rng, t: &mut Tally, thorough: bool) {
         let (f, h) = pick_fh(r, ext);
         let lde = s.n() * blowup;
         let nl = FriOptions::new(blowup, fold, rem).num_fri_layers(lde);
-        check(&Case { lag: 0, field: f, hasher: h, opts: Opts { q: 1 + r.below(8.min(lde as u64 - 1)) as usize, blowup, grind: 0, ext, fold, rem }, spec: s }, t, &format!("fri:layers={}", nl.min(4)));
+        check(&Case { x: None, lag: 0, field: f, hasher: h, opts: Opts { q: 1 + r.below(8.min(lde as u64 - 1)) as usize, blowup, grind: 0, ext, fold, rem }, spec: s }, t, &format!("fri:layers={}", nl.min(4)));
     }
     // ---- grinding 0..=16 (20 in thorough)
     for g in [0u32, 1, 2, 7, 8, 12, 16].into_iter().chain(if thorough { vec![20u32] } else { vec![] }) {
         let s = Spec::simple(2, 3, 2, r.next_u64());
         let ext = 1 + r.below(3) as u8;
         let (f, h) = pick_fh(r, ext);
-        check(&Case { lag: 0, field: f, hasher: h, opts: Opts { q: 3, blowup: 4, grind: g, ext, fold: 2, rem: 1 }, spec: s }, t, "grinding");
+        check(&Case { x: None, lag: 0, field: f, hasher: h, opts: Opts { q: 3, blowup: 4, grind: g, ext, fold: 2, rem: 1 }, spec: s }, t, "grinding");
     }
     // ---- every field x every hasher x every extension once, on a mid-size member with aux segment and periodic column
     for f in FIELDS { for h in hashers_of(f) { for ext in 1..=3u8 {
@@ -635,7 +977,7 @@ fn boundary_stream(r: &mut Rng, t: &mut Tally, thorough: bool) {
         s.periodic = vec![4]; s.use_per = vec![false, true, false]; s.degs = vec![3, 2, 1]; s.exemptions = 2;
         s.aux_width = 2; s.aux_rands = 2;
         s.assertions = vec![AKind::Sequence { col: 0, first: 1, stride: 4 }, AKind::Single { col: 2, step: 15 }];
-        check(&Case { lag: 0, field: f.into(), hasher: (*h).into(), opts: Opts { q: 4, blowup: 4, grind: 1, ext, fold: 4, rem: 3 }, spec: s }, t, &format!("matrix:{}:{}:ext{}", f, h, ext));
+        check(&Case { x: None, lag: 0, field: f.into(), hasher: (*h).into(), opts: Opts { q: 4, blowup: 4, grind: 1, ext, fold: 4, rem: 3 }, spec: s }, t, &format!("matrix:{}:{}:ext{}", f, h, ext));
     } } }
     // ---- Lagrange-kernel auxiliary column (with 1, 2, 7, 253 ordinary auxiliary columns before it) on every field / extension
     for f in FIELDS { for ext in 1..=3u8 { for &(log_n, aw) in &[(3u32, 2usize), (5, 3), (4, 8), (3, 254), (10, 2)] {
@@ -643,7 +985,7 @@ fn boundary_stream(r: &mut Rng, t: &mut Tally, thorough: bool) {
         let blowup = *r.pick(&[2usize, 4, 8]);
         let (fold, rem) = pick_fri(r, (1usize << log_n) * blowup, blowup);
         let hs = hashers_of(f);
-        let c = Case { lag: aw, field: f.into(), hasher: hs[r.below(hs.len() as u64 - 1) as usize].into(), opts: Opts { q: 1 + r.below(7) as usize, blowup, grind: 0, ext, fold, rem }, spec: Spec::simple(1, log_n, 1, 0) };
+        let c = Case { x: None, lag: aw, field: f.into(), hasher: hs[r.below(hs.len() as u64 - 1) as usize].into(), opts: Opts { q: 1 + r.below(7) as usize, blowup, grind: 0, ext, fold, rem }, spec: Spec::simple(1, log_n, 1, 0) };
         check(&c, t, "lagrange-kernel");
     } } }
     let _ = base_opts();
@@ -670,11 +1012,218 @@ fn random_stream(r: &mut Rng, t: &mut Tally, n: usize) {
         let (fold, rem) = pick_fri(r, lde, blowup);
         let q = match r.below(8) { 0 => 1, 1 => (lde - 1).min(255), 2 => 255.min(lde - 1), _ => 1 + r.below(12.min(lde as u64 - 1)) as usize };
         let lag = if r.chance(1, 12) { 2 + r.below(6) as usize } else { 0 };
-        let c = Case { lag, field: f, hasher: h, opts: Opts { q, blowup, grind: if r.chance(1, 4) { r.below(6) as u32 } else { 0 }, ext, fold, rem }, spec: s };
+        let c = Case { x: None, lag, field: f, hasher: h, opts: Opts { q, blowup, grind: if r.chance(1, 4) { r.below(6) as u32 } else { 0 }, ext, fold, rem }, spec: s };
         check(&c, t, if lag > 0 { "random-lagrange" } else { "random" });
     }
 }
 
+
+// ------------------------------------------------------------------------------------------------ X stream (coverage round; run in BOTH profiles)
+/// one member of the X family for the cell (aux shape, Lagrange column, #exemptions, use of the exempt rows); `rep` rotates the other
+/// knobs: trace length 8..64, periodic column, assertion kinds (main: single / sequence / periodic; aux: single / sequence / periodic),
+/// extension degree, field, hasher
+fn x_cell_case(r: &mut Rng, shape: &str, lagx: bool, e: usize, rows: u8, rep: usize) -> Case {
+    let log_n = 3 + (rep as u32 % 4);
+    let n = 1usize << log_n;
+    let blowup = *r.pick(&[4usize, 8]);
+    let w = if shape == "none" { 1 + r.below(5) as usize } else { 3 + r.below(4) as usize };
+    let mut s = Spec::simple(w, log_n, 1, r.next_u64());
+    s.degs = (0..w).map(|_| 1 + r.below(3) as u32).collect();
+    if rep % 2 == 1 { s.periodic = vec![*r.pick(&[2usize, 4, n])]; s.use_per = (0..w).map(|_| r.chance(1, 2)).collect(); }
+    s.exemptions = e;
+    let stride = pow2_le(r, 1, log_n.min(4));
+    s.assertions = match rep % 3 {
+        0 => vec![AKind::Single { col: 0, step: if r.chance(1, 2) { 0 } else { r.below(n as u64) as usize } }],
+        1 => vec![AKind::Sequence { col: 0, first: r.below(stride as u64) as usize, stride }],
+        _ => { s.hold[w - 1] = true; let mut a = vec![AKind::Periodic { col: w - 1, first: r.below(stride as u64) as usize, stride }]; if w > 1 { a.push(AKind::Single { col: 0, step: n - 1 }); } a }
+    };
+    let mut x = X { lagx, rows, aux: 0, first: 0, stride: 2 };
+    if shape != "none" {
+        let l = lagx as usize;
+        let total = match shape { "lt" => 1 + l + r.below((w - 1 - l) as u64) as usize, "eq" => w, _ => w + 1 + r.below(3) as usize };
+        let mut xa = ((rep / 2) % 3) as u8;
+        if xa == 2 && total < 2 + l { xa = 0; }
+        if xa == 1 && total - l < 2 { xa = 0; }
+        s.aux_width = total - l - (xa == 2) as usize;
+        s.aux_rands = 1 + r.below(3) as usize;
+        let st = pow2_le(r, 1, log_n.min(4));
+        x = X { lagx, rows, aux: xa, stride: st, first: if xa == 1 { 1 + r.below(st as u64 - 1) as usize } else { r.below(st as u64) as usize } };
+        if e >= 2 && r.chance(1, 3) { s.aux_assert_last = true; }
+    }
+    fit_degrees(&mut s, blowup);
+    // the exemption rule bounds degree + exemptions: lower the largest degree until the documented rules accept the member
+    for _ in 0..4 { if ref_ctx_accepts(&s, blowup) { break; } let m = *s.degs.iter().max().unwrap(); if m <= 1 { break; } for d in s.degs.iter_mut() { if *d == m { *d -= 1; } } }
+    let ext = 1 + (rep % 3) as u8;
+    let (f, h) = pick_fh(r, ext);
+    let (fold, rem) = pick_fri(r, n * blowup, blowup);
+    Case { x: Some(x), lag: 0, field: f, hasher: h, opts: Opts { q: 1 + r.below(4) as usize, blowup, grind: 0, ext, fold, rem }, spec: s }
+}
+
+const X_SHAPES: [&str; 4] = ["none", "lt", "eq", "gt"];
+
+fn x_stream(r: &mut Rng, t: &mut Tally, n_random: usize, reps: usize) {
+    // ---- cells: aux shape x Lagrange column x (#exemptions, exempt rows used or not); several members per cell.  A member whose
+    // honest trace is not degree-exact by the reference computation (e.g. a periodic column with equal values) is replaced by another seed
+    for shape in X_SHAPES { for lagx in [false, true] {
+        if shape == "none" && lagx { continue; }
+        for &(e, rows) in &[(1usize, 0u8), (2, 2), (3, 2), (2, 0), (2, 1), (4, 2)] {
+            for rep in 0..reps {
+                for _try in 0..12 {
+                    let c = x_cell_case(r, shape, lagx, e, rows, rep);
+                    if !admissible(&c) { continue; }
+                    check(&c, t, &format!("x:aux-{}:lag{}:e{}:rows{}", shape, lagx as u8, e, rows));
+                    if t.last_cell { break; }
+                }
+            }
+        }
+    } }
+    // ---- degenerate valid traces through the same wrapper: must be proved in release; in debug they pass Trace::validate and then
+    // may trip the degree diagnostic (tolerated only where the reference predicts it)
+    for f in FIELDS { for (i, (name, mk)) in [
+        ("x-degenerate:zero-trace-aux", Box::new(|| { let mut s = Spec::simple(2, 3, 2, 21); s.constant_trace = true; s.aux_width = 2; s.aux_rands = 2; s }) as Box<dyn Fn() -> Spec>),
+        ("x-degenerate:hold-e2-unused", Box::new(|| { let mut s = Spec::simple(2, 4, 1, 22); s.hold = vec![true, false]; s.exemptions = 2; s.aux_width = 1; s.aux_rands = 1; s })),
+        ("x-degenerate:all-hold-e3", Box::new(|| { let mut s = Spec::simple(3, 3, 1, 23); s.hold = vec![true; 3]; s.exemptions = 3; s.assertions = vec![AKind::Periodic { col: 1, first: 1, stride: 4 }]; s })),
+        ("x-degenerate:low-degree-x^3-e2", Box::new(|| { let mut s = Spec::simple(2, 4, 1, 24); s.rot = vec![3, 0]; s.exemptions = 2; s.aux_width = 3; s.aux_rands = 1; s })),
+        ("x-degenerate:equal-periodic-values", Box::new(|| { let mut s = Spec::simple(1, 3, 2, 0); s.periodic = vec![2]; s.use_per = vec![true];
+            // a seed whose two periodic values coincide: the periodic polynomial is constant, the declared cycle degree is not attained
+            s.seed = (0..10_000u64).find(|&sd| { let mut t = s.clone(); t.seed = sd; let p = t.periodic_values::<f64::BaseElement>(); p[0][0] == p[0][1] }).unwrap_or(0); s })),
+    ].into_iter().enumerate() {
+        let s = mk();
+        let ext = 1 + ((i as u8 + f.len() as u8) % 3);
+        if !ext_supported(f, ext) { continue; }
+        let x = X { lagx: s.aux_width > 0 && i % 2 == 1, rows: 0, aux: 0, first: 0, stride: 2 };
+        let c = Case { x: Some(x), lag: 0, field: f.into(), hasher: hashers_of(f)[r.below(3) as usize].into(), opts: Opts { q: 2, blowup: 4, grind: 0, ext, fold: 2, rem: 1 }, spec: s };
+        check(&c, t, name);
+    } }
+    // ---- every declared degree 1..blowup+1 for blowup 2,4,8, with and without a periodic column, x exemptions {1,2,d} x n in {8,32}, exempt rows
+    // used; in debug the reference decides which of them the degree validation accepts (e.g. n = 8, degree 5 with a cycle-2 periodic column:
+    // the quotient degree is exactly 32 = half the evaluation domain, which the validation's domain-size assertion refuses)
+    for &blowup in &[2usize, 4, 8] { for d in 1..=(blowup as u32 + 1) { for per in [false, true] { for &log_n in &[3u32, 5] { for ek in 0..3 {
+        let n = 1usize << log_n;
+        let e = [1usize, 2, d as usize][ek];
+        if ek == 2 && (e <= 2 || e > n / 2 + 1) { continue; }
+        let mut s = Spec::simple(2, log_n, d, r.next_u64());
+        if per { s.periodic = vec![*r.pick(&[2usize, 4, n])]; s.use_per = vec![true, false]; }
+        s.exemptions = e;
+        if d % 2 == 0 { s.aux_width = 1 + r.below(3) as usize; s.aux_rands = 1 + r.below(2) as usize; }
+        let x = X { lagx: s.aux_width > 0 && d % 4 == 0, rows: if e >= 2 { 2 } else { 0 }, aux: 0, first: 0, stride: 2 };
+        let ext = 1 + r.below(3) as u8;
+        let (f, h) = pick_fh(r, ext);
+        let (fold, rem) = pick_fri(r, n * blowup, blowup);
+        let c = Case { x: Some(x), lag: 0, field: f, hasher: h, opts: Opts { q: 1 + r.below(3) as usize, blowup, grind: 0, ext, fold, rem }, spec: s };
+        if !admissible(&c) { continue; }
+        check(&c, t, &format!("x-degree:{}{}", if d as usize == blowup + 1 { "blowup+1" } else if d == 1 { "1" } else { "mid" }, if per { "+periodic" } else { "" }));
+    } } } } }
+    // the corner named above, pinned (release: must be proved; debug: the domain-size diagnostic, predicted by the reference)
+    // (likewise n = 8, degree 10 without periodic column, and n = 16, degree 9 with a cycle-2 column, both with blowup 16)
+    for &(log_n, d, cyc, blowup) in &[(3u32, 5u32, 2usize, 8usize), (3, 10, 0, 16), (4, 9, 2, 16)] { for sd in 1..=3u64 {
+        let mut s = Spec::simple(1, log_n, d, sd);
+        if cyc > 0 { s.periodic = vec![cyc]; s.use_per = vec![true]; }
+        let c = Case { x: Some(X { lagx: false, rows: 0, aux: 0, first: 0, stride: 2 }), lag: 0, field: "f64".into(), hasher: "blake3_256".into(), opts: Opts { q: 2, blowup, grind: 0, ext: 1, fold: 4, rem: 7 }, spec: s };
+        check(&c, t, &format!("x-degree:n={},d={},cycle={}", 1 << log_n, d, cyc));
+    } }
+    // ---- wide traces (row-matrix segment boundaries) with wide auxiliary segments, 8 rows
+    for &(w, aw) in &[(9usize, 0usize), (17, 0), (64, 0), (8, 8), (9, 9), (7, 17), (128, 125), (1, 253)] {
+        let mut s = Spec::simple(w, 3, 2, r.next_u64());
+        s.degs = (0..w).map(|_| 1 + r.below(3) as u32).collect();
+        s.aux_width = aw; s.aux_rands = if aw > 0 { 1 + r.below(3) as usize } else { 0 };
+        s.exemptions = 1 + r.below(2) as usize;
+        s.assertions = vec![AKind::Single { col: w - 1, step: 7 }];
+        let x = X { lagx: aw > 0, rows: 2, aux: if aw >= 2 { 1 + r.below(2) as u8 } else { 0 }, first: 1, stride: 4 };
+        let ext = 1 + r.below(3) as u8;
+        let (f, h) = pick_fh(r, ext);
+        let c = Case { x: Some(x), lag: 0, field: f, hasher: h, opts: Opts { q: 2, blowup: 4, grind: 0, ext, fold: 2, rem: 3 }, spec: s };
+        if !admissible(&c) { t.skipped += 1; continue; }
+        check(&c, t, &format!("x-width:{}+{}", w, aw));
+    }
+    // ---- the plain Lagrange-kernel family (degree-1 constraints, one exemption: always degree-exact) on 8..64 rows
+    for f in FIELDS { for ext in 1..=3u8 { for &(log_n, aw) in &[(3u32, 2usize), (4, 3), (5, 8), (6, 2)] {
+        if !ext_supported(f, ext) { continue; }
+        let blowup = *r.pick(&[2usize, 4, 8]);
+        let (fold, rem) = pick_fri(r, (1usize << log_n) * blowup, blowup);
+        let hs = hashers_of(f);
+        let c = Case { x: None, lag: aw, field: f.into(), hasher: hs[r.below(hs.len() as u64 - 1) as usize].into(), opts: Opts { q: 1 + r.below(4) as usize, blowup, grind: 0, ext, fold, rem }, spec: Spec::simple(1, log_n, 1, 0) };
+        check(&c, t, "x-plain-lagrange-kernel");
+    } } }
+    // ---- random members of the wrapper family
+    let (start, mut tries) = (t.evals, 0);
+    while t.evals - start < n_random && tries < n_random * 30 {
+        tries += 1;
+        let blowup = *r.pick(&[2usize, 4, 4, 8, 16]);
+        let mut s = random_spec(r, 6, blowup);
+        fit_degrees(&mut s, blowup);
+        let n_ = s.n();
+        s.exemptions = match r.below(6) { 0 | 1 => 1, 2 => 2, 3 => 3, 4 => 1 + r.below(5) as usize, _ => 1 + r.below((n_ / 2 + 1) as u64) as usize };
+        if r.chance(1, 10) { match r.below(3) { 0 => s.constant_trace = true, 1 => { for h in s.hold.iter_mut() { *h = true; } }, _ => { s.rot = (0..s.width).map(|_| r.below(n_ as u64 / 2) as u32).collect(); } } }
+        if r.chance(1, 2) && s.aux_width == 0 { s.aux_width = 1 + r.below(2 * s.width as u64 + 1) as usize; s.aux_rands = 1 + r.below(3) as usize; }
+        let st = pow2_le(r, 1, s.log_n.min(5));
+        let xa = if s.aux_width == 0 { 0 } else { r.below(3) as u8 };
+        let x = X { lagx: s.aux_width > 0 && r.chance(1, 2), rows: r.below(3) as u8, aux: xa, stride: st, first: if xa == 1 { 1 + r.below(st as u64 - 1) as usize } else { r.below(st as u64) as usize } };
+        if s.aux_width > 0 && s.exemptions >= 2 && r.chance(1, 4) { s.aux_assert_last = true; }
+        let ext = 1 + r.below(3) as u8;
+        let (f, h) = pick_fh(r, ext);
+        let lde = n_ * blowup;
+        let (fold, rem) = pick_fri(r, lde, blowup);
+        let c = Case { x: Some(x), lag: 0, field: f, hasher: h, opts: Opts { q: 1 + r.below(6.min(lde as u64 - 1)) as usize, blowup, grind: if r.chance(1, 6) { r.below(4) as u32 } else { 0 }, ext, fold, rem }, spec: s };
+        if !admissible(&c) { continue; }
+        check(&c, t, "x-random");
+    }
+}
+
+/// cross-check of the reference validity predicates (is_valid for the main segment, x_aux_check for the auxiliary one) with the library's
+/// `Trace::validate` called directly WITH an auxiliary segment (and a Lagrange column), on honest traces, traces that use the exempt
+/// rows, and traces with one mutated main / auxiliary cell; degenerate traces included (no degree validation on this path)
+fn x_crosscheck_one<B: Fx, E: FieldElement<BaseField = B>>(r: &mut Rng, t: &mut Tally, i: usize) {
+    let shape = X_SHAPES[r.below(4) as usize];
+    let e = 1 + r.below(4) as usize;
+    let (lagx, rows, rep) = (shape != "none" && r.chance(1, 2), r.below(3) as u8, r.below(12) as usize);
+    let mut c = x_cell_case(r, shape, lagx, e, rows, rep);
+    c.field = B::NAME.into(); c.hasher = "blake3_256".into(); c.opts.ext = 1;
+    if r.chance(1, 8) { c.spec.constant_trace = true; }
+    if !admissible(&c) { return; }
+    let (spec, x) = (c.spec.clone(), c.x.unwrap());
+    let opts = make_opts(&c.opts).unwrap();
+    let (n, w) = (spec.n(), spec.width);
+    let mut cols = gen_main::<B>(&spec);
+    if x.rows >= 1 && spec.exemptions >= 2 { x_use_exempt_rows(&spec, &mut cols); }
+    let avals = assertion_values(&spec, &cols);
+    let seq = x_seq_vals(&spec, &x, &cols);
+    let pi = XPub { fam: PubInputs { spec: spec.clone(), avals: avals.clone() }, x, seq: seq.clone() };
+    let mut coin = DefaultRandomCoin::<Blake3_256<B>>::new(&[B::from(r.next_u64() as u32)]);
+    let rands: Vec<E> = (0..spec.aux_rands).map(|_| coin.draw().unwrap()).collect();
+    let lag: Option<Vec<E>> = if x.lagx { Some((0..spec.log_n).map(|_| coin.draw().unwrap()).collect()) } else { None };
+    let mut aux = if spec.aux_width > 0 { x_build_aux::<B, E>(&spec, &x, &ColMatrix::new(cols.clone()), &rands, lag.as_deref()) } else { vec![] };
+    let mode = if spec.aux_width > 0 { i % 3 } else { i % 2 };
+    match mode {
+        1 => { let (cc, row) = (r.below(w as u64) as usize, r.below(n as u64) as usize); cols[cc][row] += B::from(1 + r.below(3) as u32); }
+        2 => { let (cc, row) = (r.below((aux.len() - x.lagx as usize) as u64) as usize, r.below(n as u64) as usize); aux[cc][row] += E::ONE; }
+        _ => {}
+    }
+    let plain = &aux[..aux.len() - (x.lagx && !aux.is_empty()) as usize];
+    let mine = is_valid(&spec, &cols, &avals) && (spec.aux_width == 0 || x_aux_check::<B, E>(&spec, &x, &cols, plain, &rands, &seq).0);
+    let trace = XTrace::new(&spec, &x, cols);
+    let air = XAir::<B>::new(trace.info().clone(), pi, opts);
+    let atm = if spec.aux_width > 0 { Some(winter_prover::AuxTraceWithMetadata::<E, usize> { aux_trace: ColMatrix::new(aux), aux_rand_elements: AuxRandElements::new_with_lagrange(rands, lag.map(LagrangeKernelRandElements::new)), gkr_proof: None }) } else { None };
+    let theirs = catch(AssertUnwindSafe(|| trace.validate::<XAir<B>, E>(&air, atm.as_ref())));
+    t.evals += 1;
+    *t.strata.entry(format!("x-crosscheck:{}:aux{}:lag{}:{}", if mine { "valid" } else { "invalid" }, (spec.aux_width > 0) as u8, x.lagx as u8, if spec.exemptions == 1 { "e1" } else { "e>=2" })).or_insert(0) += 1;
+    if mine != theirs.is_ok() {
+        t.fails += 1;
+        println!("{{\"what\":\"harness:oracle-disagrees-with-Trace::validate\",\"input\":{},\"expected\":\"reference validity (main and auxiliary segment) = {}\",\"actual\":\"Trace::validate: {}\",\"mutated\":{},\"ext\":{}}}",
+            case_json(&c), mine, jstr(&match theirs { Ok(()) => "accepts".to_string(), Err(m) => format!("panics: {}", clip(&m)) }), mode, E::EXTENSION_DEGREE);
+    }
+}
+
+fn x_crosscheck(r: &mut Rng, t: &mut Tally, n: usize) {
+    use winter_math::fields::{CubeExtension, QuadExtension};
+    type B62 = f62::BaseElement; type B64 = f64::BaseElement; type B128 = f128::BaseElement;
+    for i in 0..n {
+        match (i / 3) % 6 {
+            0 => x_crosscheck_one::<B64, B64>(r, t, i), 1 => x_crosscheck_one::<B64, QuadExtension<B64>>(r, t, i), 2 => x_crosscheck_one::<B64, CubeExtension<B64>>(r, t, i),
+            3 => x_crosscheck_one::<B62, CubeExtension<B62>>(r, t, i), 4 => x_crosscheck_one::<B128, QuadExtension<B128>>(r, t, i), _ => x_crosscheck_one::<B62, B62>(r, t, i),
+        }
+    }
+}
 
 /// cross-check of the falsifier's oracle `is_valid` with the library's own `Trace::validate` (which panics on an invalid trace):
 /// honest traces and traces with one mutated cell (which stays valid only when the cell takes part in exempt transitions only
@@ -703,7 +1252,7 @@ fn oracle_crosscheck(r: &mut Rng, t: &mut Tally, n: usize) {
         *t.strata.entry(format!("oracle-crosscheck:{}", if mine { "valid" } else { "invalid" })).or_insert(0) += 1;
         if mine != theirs {
             t.fails += 1;
-            let c = Case { lag: 0, field: "f64".into(), hasher: "blake3_256".into(), opts: Opts { q: 2, blowup, grind: 0, ext: 1, fold: 2, rem: 0 }, spec: s };
+            let c = Case { x: None, lag: 0, field: "f64".into(), hasher: "blake3_256".into(), opts: Opts { q: 2, blowup, grind: 0, ext: 1, fold: 2, rem: 0 }, spec: s };
             println!("{{\"what\":\"harness:oracle-disagrees-with-Trace::validate\",\"input\":{},\"expected\":\"is_valid = {}\",\"actual\":\"Trace::validate accepts = {}\",\"mutated\":{}}}", case_json(&c), mine, theirs, i % 2 == 1);
         }
     }
@@ -910,7 +1459,7 @@ fn probe(r: &mut Rng, n: usize) {
         let wf = fri_wellformed(lde, blowup, fold, rem);
         if wf && q < lde { continue; }
         if q > 255 { continue; }
-        let c = Case { lag: 0, field: "f64".into(), hasher: "blake3_256".into(), opts: Opts { q, blowup, grind: 0, ext: 1, fold, rem }, spec: Spec::simple(1, log_n, 1, r.next_u64()) };
+        let c = Case { x: None, lag: 0, field: "f64".into(), hasher: "blake3_256".into(), opts: Opts { q, blowup, grind: 0, ext: 1, fold, rem }, spec: Spec::simple(1, log_n, 1, r.next_u64()) };
         let out = run_case(&c);
         let key = format!("wf={} q<lde={} -> {}", wf as u8, (q < lde) as u8, fail_class(&out));
         let e = seen.entry(key).or_insert((0, case_json(&c))); e.0 += 1;
@@ -939,7 +1488,7 @@ fn main() {
         }
         Some("falsify") => {
             let thorough = args.get(4).map(|s| s == "thorough").unwrap_or(false);
-            let mut t = Tally { evals: 0, fails: 0, skipped: 0, classes: vec![], strata: Default::default() };
+            let mut t = Tally { last_cell: false, evals: 0, fails: 0, skipped: 0, classes: vec![], strata: Default::default() };
             boundary_stream(&mut r, &mut t, thorough);
             oracle_crosscheck(&mut r, &mut t, if thorough { 3000 } else { 300 });
             let b = t.evals;
@@ -949,12 +1498,24 @@ fn main() {
             println!("boundary={} random={} skipped-inadmissible={}", b, t.evals - b, t.skipped);
             println!("evaluations={} failures={}", t.evals, t.fails);
         }
+        Some("xfalsify") => {
+            // the X stream of the coverage round; meant to be run with the DEBUG build (debug-only self-checks of the prover) and the release build
+            let reps: usize = args.get(4).and_then(|s| s.parse().ok()).unwrap_or(3);
+            let mut t = Tally { last_cell: false, evals: 0, fails: 0, skipped: 0, classes: vec![], strata: Default::default() };
+            x_stream(&mut r, &mut t, n, reps);
+            x_crosscheck(&mut r, &mut t, (n / 2).max(60));
+            let strata: Vec<String> = t.strata.iter().map(|(k, v)| format!("{}={}", k, v)).collect();
+            println!("xstrata: {}", strata.join(" "));
+            println!("profile={} skipped-inadmissible={}", if cfg!(debug_assertions) { "debug" } else { "release" }, t.skipped);
+            println!("evaluations={} failures={}", t.evals, t.fails);
+        }
         Some("replay") => {
             let c = case_of_json(args.get(2).expect("json"));
             let adm = admissible(&c);
             println!("admissible={} outcome={}", adm, run_case(&c));
+            if c.x.is_some() { println!("profile={} reference: {:?} predicted-degree-exact={}", if cfg!(debug_assertions) { "debug" } else { "release" }, xlog(), x_predicted_exact()); }
         }
         Some("probe") => probe(&mut r, n),
-        _ => { eprintln!("usage: c01 corr <seed> <n> <group> | c01 falsify <seed> <n> [thorough] | c01 replay '<json>' | c01 probe <seed> <n>"); std::process::exit(2); }
+        _ => { eprintln!("usage: c01 corr <seed> <n> <group> | c01 falsify <seed> <n> [thorough] | c01 replay '<json>' | c01 probe <seed> <n> | c01 xfalsify <seed> <n> [reps]"); std::process::exit(2); }
     }
 }
